@@ -29,6 +29,8 @@ def flags(stage_dir):
     i_setjmp = n.find("setjmp (error_longjump_buff)")
     out.append(("flags-cleared-before-setjmp", 0 <= i_clear < i_setjmp, "both flags are cleared before the setjmp test"))
     out.append(("flags-assigned-only-there", len(re.findall(r"\btok_init_p\s*=[^=]", n)) == 2 and len(re.findall(r"\bparse_init_p\s*=[^=]", n)) == 2, "no other assignment to the flags"))
+    out.append(("flags-volatile", re.search(r"volatile int tok_init_p, parse_init_p;", n) is not None,
+                "the two flags are volatile (their values in the handler are the last written ones: C11 7.13.2.1; assumption A3 holds by the language)"))
     out.append(("fin-after-last-exit", n.rfind("yaep_parse_fin (); tok_fin (); return 0;") > n.rfind("make_parse"), "success path finalises parse storage then token storage then returns 0"))
     return out
 
